@@ -134,13 +134,20 @@ def parse_kani_log(text, names):
             r.time = float(m.group(1))
         for fm in re.finditer(r"Failed Checks: (.*)\n(?: File: \"([^\"]*)\", line (\d+), in (\S+))?", b):
             r.failed_checks.append((fm.group(1).strip(), fm.group(2) or "", int(fm.group(3) or 0), fm.group(4) or ""))
-        # playback bytes: the first generated test (counterexample for failures, cover witness otherwise)
-        pm = re.search(r"let concrete_vals: Vec<Vec<u8>> = vec!\[(.*?)\n    \];", b, re.S)
-        if pm:
+        # playback bytes: prefer the test generated for a failed check (not the one for the `cover`)
+        cands = []
+        for pm in re.finditer(r"/// Check for `(\w+)`: \"([^\"]*)\"(?:(?!/// Check for).)*?let concrete_vals: Vec<Vec<u8>> = vec!\[(.*?)\n    \];", b, re.S):
             flat = []
-            for vm in re.finditer(r"vec!\[([0-9, ]*)\]", pm.group(1)):
+            for vm in re.finditer(r"vec!\[([0-9, ]*)\]", pm.group(3)):
                 flat += [int(x) for x in vm.group(1).replace(" ", "").split(",") if x]
-            r.witness = flat
+            cands.append((pm.group(1), pm.group(2), flat))
+        non_cover = [c for c in cands if c[0] != "cover"]
+        if non_cover:
+            r.witness = non_cover[0][2]
+            r.witness_for = non_cover[0][1]
+        elif cands:
+            r.witness = cands[0][2]
+            r.witness_for = "cover"
         if "VERIFICATION:- SUCCESSFUL" in b:
             if r.cover_ok is False:
                 r.status, r.reason = "undecided", "vacuous: end of harness unreachable (contradictory precondition?)"
@@ -188,6 +195,9 @@ def run_kani(crate, prefix, harnesses, harness_timeout=600, tag="run"):
     res = parse_kani_log(text, full)
     failed = [f for f in full if res[f].status == "failed"]
     if failed:
+        # concrete playback is sequential and slow (--trace): at most 3 harnesses get a Kani witness, the
+        # others fall back to the native witness search of the same contract
+        failed = sorted(failed, key=lambda f: res[f].time)[:3]
         cmd2 = _kani_cmd(crate, failed, harness_timeout, 1, True)
         rc2, text2, secs2 = sh(cmd2, timeout=300 + len(failed) * (harness_timeout + 30), out_path=logp + ".playback")
         res2 = parse_kani_log(text2, failed)
@@ -246,6 +256,8 @@ def native_replay(crate, modpath, harness, witness, timeout=60):
     env["VERIF_WITNESS"] = ",".join(str(b) for b in (witness or []))
     env["RUST_BACKTRACE"] = "0"
     rc, text, secs = sh([exe, modpath + "::verif_replay", "--exact", "--nocapture", "--test-threads", "1"], timeout=timeout, env=env)
+    if "VERIF_WITNESS_REJECTED" in text:
+        return {"reproduced": False, "detail": "witness outside the precondition", "output": text[-2000:]}
     m = re.search(r"REPLAY harness=\S+ consumed=(\d+) of=(\d+) rejected=(\w+) reached=(\w+) failed=\[(.*?)\]", text)
     pan = re.search(r"panicked at ([^\n]*)\n([^\n]*)", text)
     if m:
